@@ -24,6 +24,8 @@ MANIFEST = {
             "labels, relocations, error) and the image after flatten/resolve/relocate_to_base are compared with a direct Assembler run on the "
             "original call sequence (programs without edits) and on the specification's linearisation (all programs); the Lean monitor judges "
             "every program. Compiler programs with function nodes are compared with Assembler + emit_prolog/emit_epilog (differential only). "
+            "A Compiler's finalize (GlobalConstPoolPass links the pending global constant pool behind the last node whatever the cursor is, "
+            "then serialize_to) equals the specification's finalize for every history (finalize_semantics, finalize_appends_pool). "
             "embed_const_pool is covered by both theorems (align + bind + data when accepted, nothing when refused). Not proved: the byte "
             "equality itself (rests on the assembler).",
     "note": "Trusted: Lean kernel; Spec/Builder.lean as the meaning of 'edited sequence'; harness/driver/diff. Not modelled: the assembler "
@@ -103,6 +105,9 @@ class Gen:
         # labels used across sections in half of the multi-section programs (defect #18 is repaired: new_fixup routes such references
         # to the cross-section list), section-local in the others
         self.local_labels = cls != "xsec" and rng.random() < 0.5
+        self.emitter = "builder"
+        self.pool_label = None
+        self.pool_isz = None
         # how often a program contains calls the assembler is likely to refuse (finalize stops at the first one):
         # one third of the programs are noisy, the others mostly clean so that whole programs reach the byte comparison
         self.noise = 1.0 if rng.random() < 0.33 else 8.0
@@ -117,12 +122,26 @@ class Gen:
         self.nlabels += 1
         return self.nlabels - 1
 
+    def gen_gconst(self):
+        """a constant for the Compiler's global pool (one item size per program); the pool's label can be referenced but never bound"""
+        rng = self.rng
+        if self.pool_label is None:
+            self.pool_isz = rng.choice((4, 8, 8, 16))
+            self.pool_label = self.nlabels
+            self.label_home[self.nlabels] = self.cur_section
+            self.nlabels += 1
+            self.nnodes += 1
+        v = rng.choice((1, 2, 3, 3, 200 + rng.randrange(50)))
+        self.emit("gconst %d %s" % (self.pool_isz, ("%02x" % v) * self.pool_isz))
+
     def pick_label(self, for_bind=False, allow_invalid=True):
         rng = self.rng
         if allow_invalid and rng.random() < 0.02:
             return 1000 + rng.randrange(0, 3)                  # a label id that never exists (an id that is created *later* is
                                                                # valid at finalize time but not at call time: outside the property)
         cands = [l for l in range(self.nlabels) if (not self.local_labels or self.label_home[l] == self.cur_section)]
+        if for_bind:
+            cands = [l for l in cands if l != self.pool_label]     # GlobalConstPoolPass links the pool node itself
         if for_bind and rng.random() < 0.93:
             cands = [l for l in cands if l not in self.bound]
         if not cands or rng.random() < 0.15:
@@ -249,16 +268,161 @@ class Gen:
 
     def program(self, emitter, nops):
         rng = self.rng
+        self.emitter = emitter
         for _ in range(rng.randrange(1, 4)):
             self.new_label()
         edits = self.cls.startswith("edits")
+        pool = emitter == "compiler" and rng.random() < 0.6
         for _ in range(nops):
             if edits and rng.random() < 0.22:
                 self.gen_edit()
+            elif pool and rng.random() < 0.10:
+                self.gen_gconst()
             else:
                 self.gen_call()
+        if pool and edits and rng.random() < 0.7:
+            # the cursor is NOT on the last node when finalize runs: the global pool must still go behind the last node
+            self.emit("cursor %d" % self.node())
+            if rng.random() < 0.5:
+                self.gen_inst()
         enc = rng.choice((0, 0, 0, 1, 2, 3))
         return Program(self.arch, emitter, enc, self.ops, self.cls)
+
+
+class Mirror:
+    """generator-side copy of the node-list semantics (only to PROPOSE meaningful ranges; the Lean monitor judges)"""
+
+    def __init__(self):
+        self.lst, self.cur, self.kind, self.n, self.secnode, self.nsec = [0], 0, {0: "sec"}, 1, {0: 0}, 1
+
+    def new(self, kind):
+        o = self.n
+        self.n += 1
+        self.kind[o] = kind
+        return o
+
+    def add(self, o):
+        if self.cur is None:
+            self.lst.insert(0, o)
+        else:
+            self.lst.insert(self.lst.index(self.cur) + 1, o)
+        self.cur = o
+
+    def remove(self, o):
+        if o in self.lst:
+            i = self.lst.index(o)
+            prev = self.lst[i - 1] if i else None
+            self.lst.pop(i)
+            if self.cur == o:
+                self.cur = prev
+
+    def removerange(self, a, b):
+        if a == b:
+            return self.remove(a)
+        if a in self.lst:
+            i, j = self.lst.index(a), self.lst.index(b)
+            prev = self.lst[i - 1] if i else None
+            seg = self.lst[i:j + 1]
+            del self.lst[i:j + 1]
+            if self.cur in seg:
+                self.cur = prev
+
+    def section(self, s):
+        fresh = s not in self.secnode
+        if fresh:
+            self.secnode[s] = self.new("sec")
+        node = self.secnode[s]
+        if node not in self.lst:
+            self.lst.append(node)
+            self.cur = node
+        else:
+            i = self.lst.index(node)
+            nxt = [k for k in range(i + 1, len(self.lst)) if self.kind[self.lst[k]] == "sec"]
+            self.cur = self.lst[nxt[0] - 1] if nxt else self.lst[-1]
+
+
+def gen_range_program(rng, arch, menus, nops):
+    """node editing across sections: remove_nodes ranges that start on, contain and end on section / label / align / embed nodes,
+    followed by section switches and further emission (exact generator-side mirror, so that every range is valid)"""
+    m, ops, nlabels = Mirror(), [], 0
+    clean = [x for x in menus[arch][0] if x[0] in ("mov", "add", "nop", "inc", "movaps", "vaddps", "sub", "madd")]
+    removed = []
+
+    def emit():
+        nonlocal nlabels
+        r = rng.random()
+        if r < 0.35:
+            ops.append("embed " + rand_hex(rng, rng.choice((1, 2, 4))))
+            m.add(m.new("data"))
+        elif r < 0.5:
+            ops.append("align 2 %d" % rng.choice((2, 4, 8)))
+            m.add(m.new("align"))
+        elif r < 0.6:
+            ops.append("comment t%d" % rng.randrange(100))
+            m.add(m.new("comment"))
+        elif r < 0.8 and clean:
+            n, iid, toks = rng.choice(clean)
+            ops.append("inst %d %s" % (iid, " ".join(list(toks) + ["-"] * (6 - len(toks)))))
+            m.add(m.new("inst"))
+        else:
+            ops.append("newlabel")
+            o = m.new("label")
+            ops.append("bind L%d" % nlabels)
+            nlabels += 1
+            m.add(o)
+
+    def switch():
+        if m.nsec < 4 and rng.random() < 0.4:
+            ops.append("newsection")
+            m.nsec += 1
+        sid = rng.randrange(m.nsec)
+        ops.append("section S%d" % sid)
+        m.section(sid)
+
+    for _ in range(3):
+        emit()
+    switch()
+    for _ in range(nops):
+        r = rng.random()
+        if r < 0.45:
+            emit()
+        elif r < 0.62:
+            switch()
+        elif r < 0.80 and len(m.lst) >= 3:
+            special = [k for k, o in enumerate(m.lst) if m.kind[o] in ("sec", "label", "align")]
+            i = rng.choice(special) if special and rng.random() < 0.5 else rng.randrange(len(m.lst))
+            j = rng.choice(special) if special and rng.random() < 0.6 else rng.randrange(len(m.lst))
+            i, j = min(i, j), max(i, j)
+            if rng.random() < 0.2:
+                j = min(len(m.lst) - 1, j + 1)
+            a, b = m.lst[i], m.lst[j]
+            removed.extend(m.lst[i:j + 1])
+            ops.append("removerange %d %d" % (a, b))
+            m.removerange(a, b)
+            if rng.random() < 0.7:                     # ... then a section switch and more code
+                switch()
+                emit()
+        elif r < 0.86 and len(m.lst) >= 2:
+            o = rng.choice(m.lst)
+            removed.append(o)
+            ops.append("remove %d" % o)
+            m.remove(o)
+        elif r < 0.93 and removed:
+            o = removed.pop(rng.randrange(len(removed)))
+            if o not in m.lst:
+                if m.lst and rng.random() < 0.6:
+                    ref = rng.choice(m.lst)
+                    how = rng.choice(("addafter", "addbefore"))
+                    ops.append("%s %d %d" % (how, o, ref))
+                    m.lst.insert(m.lst.index(ref) + (1 if how == "addafter" else 0), o)
+                else:
+                    ops.append("addnode %d" % o)
+                    m.add(o)
+        elif m.lst:
+            o = rng.choice(m.lst)
+            ops.append("cursor %d" % o)
+            m.cur = o
+    return Program(arch, "compiler" if rng.random() < 0.2 else "builder", 0, ops, "ranges")
 
 
 def gen_fn_programs(rng, tier, menus):
@@ -296,7 +460,7 @@ def pipeline_fn(h, progs):
             results[i]["kind"] = "crash"
             continue
         results[i]["b"] = b
-        ml = ["mbegin " + p.arch]
+        ml = ["mbegin %s %s" % (p.arch, p.emitter)]
         for l in b:
             if l.startswith("F "):
                 ml.append("mFB " + l[2:])
@@ -354,6 +518,33 @@ def gen_programs(rng, tier, menus):
     progs.append(Program("a64", "compiler", 3, ["newlabel", "elabel L0 1", mi("a64", "tbz"), "cpool L0 4 9d9d9d9d", "newlabel"],
                          "corner"))
     progs.append(Program("a64", "builder", 0, ["newlabel", "elabel L0 1", "embed 01", "cpool L0 8 0102030405060708", "embed 02"], "corner"))
+    # FAMILY 1 (independently seeded change, missed once): remove_nodes whose range ENDS on / starts on / contains a SectionNode after the
+    # section links have been cached by a switch back to a linked section; then a switch to the section in front of the removed one and
+    # more code. nodes: 0 S0 | 1 data | 2 S1 | 3 data | 4 S2 | 5 data | 6 data(S0, re-entry caches the links)
+    base = ["newsection", "newsection", "embed 01", "section S1", "embed 02", "section S2", "embed 03", "section S0", "embed 04"]
+    for arch in ("x64", "x86", "a64"):
+        i1, i2 = mi(arch, "mov"), mi(arch, "add")
+        progs.append(Program(arch, "builder", 0, base + ["removerange 3 4", "section S1", i1, "embed 05", "section S0", i2], "family1"))
+        progs.append(Program(arch, "builder", 0, base + ["removerange 2 4", "section S0", i1, "section S1", "embed 05", "section S2", i2], "family1"))
+        progs.append(Program(arch, "builder", 0, base + ["removerange 6 2", "section S0", i1, "section S2", "embed 05", "section S1", i2], "family1"))
+        progs.append(Program(arch, "builder", 0, base + ["removerange 1 4", "section S0", i1, "embed 06", "section S2", i2, "addafter 2 0", "section S1", "embed 07"], "family1"))
+        progs.append(Program(arch, "compiler", 0, base + ["newlabel", "bind L0", "align 2 8", "section S1", "removerange 7 2", "section S0", i1,
+                                                          "section S1", i2, "section S0", "embed 08"], "family1"))
+        progs.append(Program(arch, "builder", 0, base + ["section S1", "removerange 4 5", "section S1", i1, "section S0", i2, "section S2", "embed 09"], "family1"))
+    # FAMILY 2 (independently seeded change, missed once): a Compiler's GLOBAL constant pool with the cursor NOT on the last node at finalize:
+    # GlobalConstPoolPass must link the pool behind the LAST node
+    for arch in ("x64", "x86", "a64"):
+        i1, i2, i3 = mi(arch, "mov"), mi(arch, "add"), mi(arch, "nop")
+        ref = mi(arch, "ldrlit" if arch == "a64" else "lea").replace("M0", "M0")
+        g1, g2 = "gconst 8 1122334455667788", "gconst 8 0102030405060708"
+        progs.append(Program(arch, "compiler", 0, [i1, g1, ref.replace("M0", "M0"), i2, g2, g1, "cursor 1", i3], "family2"))
+        progs.append(Program(arch, "compiler", 0, [g1, i1, i2, "cursor -", i3, g2], "family2"))
+        progs.append(Program(arch, "compiler", 0, [i1, i2, g1, "cursor 0", i3, "cursor 2"], "family2"))
+        progs.append(Program(arch, "compiler", 0, ["newsection", i1, g1, "section S1", "embed 0102", "section S0", i2, "cursor 1", i3], "family2"))
+        progs.append(Program(arch, "compiler", 0, ["newlabel", g1, i1, "bind L0", g2, i2, "remove 3", "cursor 2", i3, "elabel L1 8"], "family2"))
+        progs.append(Program(arch, "compiler", 0, [i1, g1, g2, i2], "family2"))                      # no cursor move: verbatim comparison too
+    for k in range(12 if tier == "quick" else 900):
+        progs.append(gen_range_program(rng, rng.choice(("x64", "x64", "x86", "a64")), menus, rng.randrange(8, 30 if tier == "quick" else 50)))
     # witness of the open finding C08-K2 (cross-section label delta under section re-entry)
     progs.append(Program("x64", "builder", 0, ["newlabel", "newlabel", "newsection", "section S1", "edelta L1 L0 8", "section S0",
                                                "bind L0", "embed 0102", "bind L1"], "corner"))
@@ -413,17 +604,52 @@ def has_reentry(p):
     return False
 
 
-def verbatim_ops(p, b_out):
-    """the original calls; calls the Builder rejected at call time are marked `~` = must fail there as well, without stopping"""
-    ops = []
+def gconst_info(p):
+    """(label id of the global pool, item size, distinct items in order) of a Compiler program, or None"""
+    nl, pool, isz, items = 0, None, None, []
+    for o in p.ops:
+        w = o.split()
+        if w[0] == "newlabel":
+            nl += 1
+        elif w[0] == "gconst":
+            if pool is None:
+                pool, isz = nl, w[1]
+                nl += 1
+            if w[1] == isz and w[2] not in items:
+                items.append(w[2])
+    return None if pool is None else (pool, isz, items)
+
+
+def verbatim_ops(p, b_out, s_lines=()):
+    """the original calls; calls the Builder rejected at call time are marked `~` = must fail there as well, without stopping.
+    A Compiler's global constants have no Assembler call of their own: the first `gconst` becomes the creation of the pool label, the
+    others nothing, and the sequence ENDS with embed_const_pool(pool) in the section the document ends in."""
+    ops, seen = [], False
     for o, r in zip(p.ops, b_out[1:1 + len(p.ops)]):
+        if o.split()[0] == "gconst":
+            ops.append("comment _gconst" if seen or not r.startswith("R ok") else "newlabel")
+            seen = seen or r.startswith("R ok")
+            continue
         ops.append(("~" + o) if r.startswith("R err") else o)
+    gi = gconst_info(p)
+    if gi and seen:
+        secs = [l.split()[1] for l in s_lines if l.startswith("section ")]
+        if secs:
+            ops.append("section " + secs[-1])
+        ops.append("cpool L%d %s %s" % (gi[0], gi[1], "".join(gi[2])))
     return ops
 
 
 def linearised_ops(p, s_lines):
     """the label/section creations followed by the specification's linearisation of the edited document"""
-    ops = [o for o in p.ops if o.split()[0] in CREATE_KINDS]
+    ops, seen = [], False
+    for o in p.ops:
+        k = o.split()[0]
+        if k in CREATE_KINDS:
+            ops.append(o)
+        elif k == "gconst" and not seen and p.emitter == "compiler":
+            ops.append("newlabel")                   # new_const_pool_node registers the pool's label
+            seen = True
     for l in s_lines:
         w = l.split()
         if w[0] == "inst":
@@ -471,7 +697,7 @@ def pipeline(h, progs):
         asm_idx.append((i, "edited-sequence"))
         # (2) no edits: the Assembler is given the original calls verbatim
         if not p.has_edits():
-            asm_progs.append(p.lines("asm", verbatim_ops(p, b)))
+            asm_progs.append(p.lines("asm", verbatim_ops(p, b, s_lines)))
             asm_idx.append((i, "verbatim"))
     a_res = run_batch([str(h)], asm_progs)
     mon_progs, mon_idx = [], []
@@ -489,7 +715,7 @@ def pipeline(h, progs):
             # section re-entry regroups the nodes, so with a failing call "the first error" is not the same call in both orders;
             # this program is judged on its edited sequence only
             continue
-        ml = ["mbegin " + p.arch]
+        ml = ["mbegin %s %s" % (p.arch, p.emitter)]
         rl = [l for l in b if l.startswith("R ")]
         # A refused embed_const_pool: the directly driven Assembler validates first and leaves NOTHING behind (/repo fixes C14-12/14),
         # whereas the Builder holds the call as align + label + data nodes, so serialize_to emits the padding and then fails at the
@@ -507,6 +733,9 @@ def pipeline(h, progs):
         for o, r in zip(p.ops, rl[1:1 + len(p.ops)]):
             ml.append("mop " + o)
             ml.append("mR " + r[2:])
+        if len(rl) > 1 + len(p.ops) and rl[1 + len(p.ops)] != "R end":
+            ml.append("mpasses")                      # the node list after run_passes (GlobalConstPoolPass)
+            ml.append("mR " + rl[1 + len(p.ops)][2:])
         for l in b:
             if l.startswith("C ") and not l.startswith("C end"):
                 ml.append("mC " + l[2:])
